@@ -18,7 +18,7 @@ func init() { core.Register(c14{}) }
 func (c14) ID() string    { return "C14" }
 func (c14) Level() string { return "exploration" }
 func (c14) Rule() string {
-	return "seeded starts with 0..40 closer components (plain, lazy, runner+closer, with dependencies) among other components; a seeded subset returns errors (all subsets for <= 4 closers across the case list), a seeded subset returns instantly, the rest block on a gate inside their own Close method: a controller releases them in a seeded order only once every gated closer has begun; if the number of closers that have begun does not move during 2 million scheduler yields and 3 s, the closers are declared stalled (slow closers prevented the others from being invoked) and everything is released. Oracle, sampled immediately after App.Close returns from the shared event log: every closer has exactly one close-begin and exactly one close-end event; afterwards (all gates released) still exactly one each. The same workload is repeated on a -race build; any race report with a go-kid/ioc frame is a violation. non-trivial = >= 2 gated closers with at least one failing or instant one; distinct = closer multiset + observed finishing order; closers that wire the application itself (names on both sides of it) and closers that are lazy post-processors take part; all workers run with the repository's own logger; typed-nil closer errors; every third case calls App.Close a second time; App.Close after a failed runner; race build: every second case without gates"
+	return "seeded starts with 0..40 closer components (plain, lazy, runner+closer, with dependencies) among other components; a seeded subset returns errors (all subsets for <= 4 closers across the case list), a seeded subset returns instantly, the rest block on a gate inside their own Close method: a controller releases them in a seeded order only once every gated closer has begun; if the number of closers that have begun does not move during 2 million scheduler yields and 3 s, the closers are declared stalled (slow closers prevented the others from being invoked) and everything is released. Oracle, sampled immediately after App.Close returns from the shared event log: every closer has exactly one close-begin and exactly one close-end event; afterwards (all gates released) still exactly one each. The same workload is repeated on a -race build; any race report with a go-kid/ioc frame is a violation. non-trivial = >= 2 gated closers with at least one failing or instant one; distinct = closer multiset + observed finishing order; closers that wire the application itself (names on both sides of it) and closers that are lazy post-processors take part; all workers run with the repository's own logger; typed-nil closer errors; every third case calls App.Close a second time; App.Close after a failed runner; race build: every second case without gates; closers exposed through decorators (a post-processor wraps each after its initialisation or as early reference)"
 }
 func (c14) Assumptions() []string {
 	return []string{"gates live inside harness-supplied Close methods (caller code), so no failpoint in the repository is needed to overlap the concurrent Close calls"}
@@ -140,6 +140,18 @@ func (p c14) run(c *core.Ctx) {
 	hold := time.Duration(0)
 	if c.Index%200 == 199 && c.Index < 2000 && gate.expected > 0 {
 		hold = 4 * time.Second
+	}
+	// in a fifth of the cases a post-processor exposes (some of) the closers through decorators - a wrapper
+	// around each that forwards Close: a decorated closer is still a closer
+	if c.Rng.Intn(5) == 0 && nc > 0 {
+		var names []string
+		for _, k := range closers {
+			if c.Rng.Intn(3) != 0 {
+				names = append(names, sc.Nodes[k].DisplayName())
+			}
+		}
+		zero = append(zero, world.NewDecorator(names...))
+		c.Count("closers_exposed_through_decorators", len(names))
 	}
 	r := world.Build(sc, world.Options{Extra: zero})
 	world.SetZeroLog(r.Log)
